@@ -135,6 +135,29 @@ Proof. reflexivity. Qed.
 Theorem apen_type_error m r : apen SeqOther m r = Raise TypeError.
 Proof. reflexivity. Qed.
 
+(* ------------------------------------------------------------------ real-valued tolerance *)
+
+(* an integer distance is within a real tolerance exactly when it is within its floor *)
+Lemma real_tolerance_floor (d : Z) (rr : R) : IZR d <= rr <-> (d <= Raux.Zfloor rr)%Z.
+Proof.
+  split.
+  - apply Raux.Zfloor_lub.
+  - intros H. apply Rle_trans with (IZR (Raux.Zfloor rr)); [apply IZR_le, H | apply Raux.Zfloor_lb].
+Qed.
+
+Lemma filter_ext_bool {A} (p q : A -> bool) l : (forall a, p a = q a) -> filter p l = filter q l.
+Proof. intros H. induction l as [|a l IH]; [reflexivity|]. cbn [filter]. rewrite H, IH. reflexivity. Qed.
+
+(* hence the counts for a real tolerance are the counts for its floor *)
+Theorem CsR_floor m rr U : CsR m rr U = Cs m (Raux.Zfloor rr) U.
+Proof.
+  unfold CsR, Cs. apply map_ext. intros xi. unfold match_countR, match_count. f_equal.
+  apply filter_ext_bool. intros xj.
+  destruct (Rle_dec (IZR (max_dist xi xj)) rr) as [H|H].
+  - symmetry. apply Z.leb_le, real_tolerance_floor, H.
+  - symmetry. apply Z.leb_gt. apply Z.nle_gt. intros H'. apply H, real_tolerance_floor, H'.
+Qed.
+
 (* ------------------------------------------------------------------ interval enclosure *)
 
 Lemma lnN_eq k : lnN k = lnI (Z.of_nat k).
@@ -180,10 +203,24 @@ Proof.
     apply I.add_correct; [apply Hf, Hc | exact IH].
 Qed.
 
+Lemma assoc_nat_map f l c v : assoc_nat c (map (fun c => (c, f c)) l) = Some v -> v = f c.
+Proof.
+  induction l as [|a l IH]; cbn [map assoc_nat]; [discriminate|].
+  destruct (c =? a)%nat eqn:E.
+  - apply Nat.eqb_eq in E. subst a. intros H. inversion H. reflexivity.
+  - exact IH.
+Qed.
+
+Lemma memo_map_eq f l : memo_map f l = map f l.
+Proof.
+  unfold memo_map. apply map_ext. intros c.
+  destruct (assoc_nat c _) as [v|] eqn:E; [|reflexivity]. apply assoc_nat_map in E. exact E.
+Qed.
+
 Lemma phiI_correct m r U : (0 <= r)%Z -> (m <= length U)%nat ->
   contains (I.convert (phiI m r U)) (Xreal (phiR m r U)).
 Proof.
-  intros Hr Hm. unfold phiI, phiR.
+  intros Hr Hm. unfold phiI, phiR. rewrite memo_map_eq.
   assert (Hn : (1 <= nwin m U)%nat) by (unfold nwin; lia).
   set (n := nwin m U) in *.
   assert (Hz : IZR (Z.of_nat n) <> 0) by (apply not_0_IZR; lia).
